@@ -537,10 +537,10 @@ def check(root, pid, tier, seed, write_evidence=True):
         if r["mismatch_ids"]:
             problems_corr.append("stage %s: model and implementation disagree on %d case(s), first: %s" % (st.get("name", idx), len(r["mismatch_ids"]), r["mismatch_ids"][:5]))
         s = r["stats"]
-        evals += s.get("evaluations", 0); nontriv += s.get("distinct_nontrivial", 0)
+        evals += s.get("evaluations") or 0; nontriv += s.get("distinct_nontrivial") or 0
         compared += r["compared_lines"]
-        samples += s.get("samples", [])[:4]
-        for k, v in s.get("distribution", {}).items():
+        samples += (s.get("samples") or [])[:4]
+        for k, v in (s.get("distribution") or {}).items():
             dist["%s/%s" % (st.get("name", idx), k)] = v
         if s.get("rule"):
             rules.append("[%s] %s" % (st.get("name", idx), s["rule"]))
